@@ -16,7 +16,7 @@ ALLOWED_EXCEPTIONS = {}
 GUARDS = [dict(note='tie', min=1, why='some explored path must contain two equal-length shortest paths'), dict(note='unreachable_pair', min=1, why='some explored graph must have an unreachable pair')]
 ASSUMPTIONS = ['weighted: lengths are reals >= 0, 0 = no connection; each explored path fixes the support and the order/tie structure of the path lengths examined by the routine',
                'binary: adjacency bits are forked by the harness (one concrete graph per path): all digraphs on 3 nodes, all undirected graphs on 4 nodes, a seeded family of 4-node digraphs']
-BOUNDS = {'quick': dict(weighted='n = 3 directed, n = 4 undirected ring family', binary='n = 3 directed, n = 4 undirected, 4-node digraph family of 64'), 'thorough': dict(weighted='n = 4 undirected full', binary='n = 4 directed all')}
+BOUNDS = {'quick': dict(weighted='n = 3 directed, n = 4 undirected ring family', binary='n = 3 directed, n = 4 and 5 undirected (all graphs), 4-node digraph family of 64, 5-node digraph family of 256'), 'thorough': dict(weighted='n = 4 undirected full', binary='n = 4 directed all, n = 5 undirected all, 5-node digraph family of 2048')}
 OPTS = {'quick': dict(witnesses_per_case=3, budget_s=900), 'thorough': dict(witnesses_per_case=3, budget_s=3000)}
 F = Fraction
 
@@ -46,6 +46,12 @@ def cases(tier, seed):
         free = rnd.sample(pairs4, 6)
         fixed = {'%d_%d' % p: rnd.choice([0, 1]) for p in pairs4 if p not in free}
         cs.append(dict(name='%s/n4dir_family' % fn, fn=fn, kind='bin', n=4, fixed=fixed, weight=100, shard_depth=4))
+        # stacked ties (a node reached by two shortest paths that is itself the first discoverer of a further node) need 5 nodes
+        cs.append(dict(name='%s/n5und' % fn, fn=fn, kind='bin', n=5, undirected=True, weight=1500, shard_depth=6))
+        pairs5 = [(a, b) for a in range(5) for b in range(5) if a != b]
+        free5 = rnd.sample(pairs5, 8 if q else 11)
+        fixed5 = {'%d_%d' % p: rnd.choice([0, 1]) for p in pairs5 if p not in free5}
+        cs.append(dict(name='%s/n5dir_family' % fn, fn=fn, kind='bin', n=5, fixed=fixed5, weight=1000, shard_depth=6))
         if not q: cs.append(dict(name='%s/n4dir' % fn, fn=fn, kind='bin', n=4, weight=5000, shard_depth=8))
     return cs
 
